@@ -28,6 +28,7 @@ type Pkg struct {
 type Engine struct {
 	fset     *token.FileSet
 	funcNames map[string]bool
+	fieldNames map[string]bool
 	pkgs     map[string]*Pkg
 	prelude  *ContractFile
 	guards   []*Guard
@@ -534,9 +535,16 @@ func (fc *FnCtx) staleClauses(p *Pkg, key string) []string {
 	}
 	chk("callpre", fv)
 	chk("sendpre", ct.SendPre)
-	chk("storepre", ct.StorePre)
-	chk("writepre", ct.WritePre)
-	chk("deletepre", ct.DeletePre)
+	// maps held in FIELDS are exempt for the same reason (a store that is gone was removed, not renamed - a renamed
+	// field would leave the rest of the contract unresolvable anyway); only a local map variable can be renamed quietly.
+	// writepre / deletepre are keyed on field names throughout.
+	localMaps := map[string][]Clause{}
+	for k, v := range ct.StorePre {
+		if !fc.eng.isFieldName(k) {
+			localMaps[k] = v
+		}
+	}
+	chk("storepre", localMaps)
 	if p.cf != nil {
 		var ks []string
 		for k := range p.cf.Contracts {
@@ -979,6 +987,24 @@ func (fc *FnCtx) checkWakeup(st *State, body *ast.BlockStmt, want string) {
 		})
 	}
 	walk(body)
+}
+
+// isFieldName: some struct field of that name is declared in the loaded packages.
+func (eng *Engine) isFieldName(name string) bool {
+	if eng.fieldNames == nil {
+		eng.fieldNames = map[string]bool{}
+		for _, p := range eng.pkgs {
+			if p.TypesInfo == nil {
+				continue
+			}
+			for _, o := range p.TypesInfo.Defs {
+				if v, ok := o.(*types.Var); ok && v.IsField() {
+					eng.fieldNames[v.Name()] = true
+				}
+			}
+		}
+	}
+	return eng.fieldNames[name]
 }
 
 // isFuncName: some function or method of that name is declared or referenced in the loaded packages.
